@@ -40,6 +40,9 @@ SP_HARNESSES = [
                      'REAL trees: switching to the candidate and back reproduces the digest (VBK best chain, reference counts, VTB lists, endorsements)'],
      'rungs': {'quick': [{'bound': 'VBK fork 2-3 / 2-4 delivered by the common ALT prefix in either order; candidate chain with a VTB contained in either branch, carried by either of its blocks, with or without a trailing invalid ATV; setState or comparePopScore', 'timeout': 250}],
                'thorough': [{'bound': 'as quick', 'timeout': 600}]}},
+    {'name': 'h_realsp_unequal', 'src': 'real/h_realsp.cpp', 'entry': 'h_realsp', 'repo_srcs': srcsets_real.REAL, 'defines': ['UNEQUAL', 'VBK_KI=2'], 'covers': [1, 2], 'jobs': 2,
+     'obligations': ['REAL trees: a VTB on the lighter VBK branch flips VBK fork resolution while its ALT chain is applied; after switching back the VBK best chain is again the heavier branch and the digest of all three trees equals the one recorded before (POP state depends only on the active chain, no tie involved)'],
+     'rungs': {'quick': [{'bound': 'VBK branches 2-3-5 (heavier) and 2-4, VBK keystone interval 2, VTB endorsing block 4 carried by either block of the candidate chain, either delivery order', 'timeout': 250}], 'thorough': [{'bound': 'as quick', 'timeout': 600}]}},
 ]
 FIN_HARNESSES = [
     {'name': 'h_realfin', 'src': 'real/h_realfin.cpp', 'entry': 'h_realfin', 'repo_srcs': srcsets_real.REAL, 'covers': [1, 2, 3], 'jobs': 8,
